@@ -100,6 +100,36 @@ def process_level(ctx, rng, viol, stats):
     return samples
 
 
+def late_directory(ctx, viol, stats):
+    """The target's directory does not exist at the first build (a rule higher up creates it): candidates in the
+    not-yet-existing directories must be watched too."""
+    for added in ("gen/out/default.txt.do", "gen/out/report.txt.do", "gen/default.do", "gen/out/default.do"):
+        pr = Project()
+        try:
+            pr.write("default.txt.do", 'mkdir -p "$(dirname "$3")"\nprintf "ROOT|%s|%s" "$1" "$2" >"$3"\n')
+            t = "gen/out/report.txt"
+            rc, out, err = pr.run(["redo-ifchange", t])
+            first = pr.read(t)
+            rcw, outw, errw = pr.run(["redo-whichdo", t])
+            listed = outw.splitlines()
+            stats["placements"] += 1
+            if rc != 0 or first != b"ROOT|gen/out/report.txt|gen/out/report":
+                p = write_replay("C13", "late-dir-first", dict(kind="impl-monitor", rc=rc, got=None if first is None else first.decode(), stderr=err[-600:]))
+                viol.append(Violation("C13", p, "first build through a root default rule into a new directory failed"))
+                return
+            pr.write(added, 'printf "NEW|%s|%s" "$1" "$2" >"$3"\n')
+            rc, out, err = pr.run(["redo-ifchange", t])
+            data = pr.read(t)
+            stats["reselect"] += 1
+            if rc != 0 or data is None or not data.startswith(b"NEW|"):
+                p = write_replay("C13", "late-dir", dict(kind="impl-monitor", clause="creating a higher-priority script causes the target to be rebuilt with the new choice", target=t, created=added, whichdo_before=listed, rc=rc,
+                                                           got=None if data is None else data.decode(), stderr=err[-600:]))
+                viol.append(Violation("C13", p, "target %s (directory created by its first build) not rebuilt after %s was created" % (t, added)))
+                return
+        finally:
+            pr.destroy()
+
+
 def run(ctx):
     rng = random.Random(ctx["seed"])
     thorough = ctx["tier"] == "thorough"
@@ -132,6 +162,8 @@ def run(ctx):
         viol.append(Violation("C13", p, "candidate list for %r differs from the model%s" % (req, "; implementation order violates the documented order: " + bad if bad else ""), no_input=not bad))
     else:
         samples = process_level(ctx, rng, viol, stats)
+        if not viol:
+            late_directory(ctx, viol, stats)
     ncand = sum(len(parse_cands(x) or []) for x in impl)
     return dict(evaluations=len(lines) + stats["placements"] * 2 + stats["reselect"] * 2,
                 distinct_nontrivial=len(set(l for l, r in zip(lines, impl) if r != "none" and r.count(",") >= 2)),
